@@ -468,6 +468,7 @@ impl Rollback {
     pub(crate) fn rollback(self, encoder: &mut BinEncoder<'_>) {
         let Self { offset, pointers } = self;
         encoder.offset = offset;
+        encoder.buffer.truncate(offset);
         encoder.name_pointers.truncate(pointers);
     }
 }
